@@ -105,7 +105,7 @@ def entries():
     L.append(g("str.value.alphabet.menu", "i: int, j: int",
                '("str", pick(("", "a", "ab", "b", "ca"), i), NOLEN, pick(("", "a", "ba", "abc"), j), Nil, Nil)',
                covers=("nodraw",)))
-    for i, pat in enumerate([r"^a+$", r"[0-9]{2}", r"b|cd", r"a.c", r"^.{1,2}$", r"[^a-y]z"]):
+    for i, pat in enumerate([r"^a+$", r"[0-9]{2}", r"b|cd", r"a.c", r"^.{1,2}$", r"[^a-y]z", r"[^_\d]x", r"[^-.\w]"]):
         L.append(g("str.regex%d" % i, "", '("str", Nil, NOLEN, Nil, Nil, r"%s")' % pat, chars=True,
                    covers=(("allhigh",) if i in (0, 2, 4) else ("mixed",)) if i < 3 or i == 4 else ("nodraw",)))
     # ---- menu types
